@@ -83,6 +83,8 @@ def enc_string(ex, s, v, node):
 
 def call_builtin(ex, s, key, recv, args, kwargs, node):
     name = key
+    if key in QUALIFIED:
+        return QUALIFIED[key](ex, s, args, kwargs, node)
     # ---- free functions
     if recv is None:
         fn = FREE.get(name)
@@ -115,6 +117,11 @@ def call_builtin(ex, s, key, recv, args, kwargs, node):
 # ------------------------------------------------------------------ free
 
 def b_len(ex, s, args, kw, node):
+    if isinstance(args[0], VOpt) or args[0] is VNone:
+        out = []
+        for s1, a1 in ex.unopt(s, args[0], node):
+            out.append((s1, a1) if isinstance(a1, Raised) else b_len(ex, s1, [a1], kw, node)[0])
+        return out
     v = ex.deref(s, args[0])
     if isinstance(v, (VBytes, VStr, VSeq)):
         return [(s, VInt(z3.Length(v.z)))]
